@@ -4188,9 +4188,10 @@ impl<'s> Semantics<'s> {
                 Expression::cmpltu(result.clone().into(), lhs)?,
             );
 
-            // store result: dest gets sum, src gets original dest
-            self.operand_store(block, &detail.operands[0], result.into())?;
+            // store result: src gets original dest, then dest gets the sum
+            // (the destination is written last: xadd eax, eax doubles eax)
             self.operand_store(block, &detail.operands[1], original_dest.into())?;
+            self.operand_store(block, &detail.operands[0], result.into())?;
 
             block.index()
         };
